@@ -446,6 +446,18 @@ theorem named_comparisons_swo (name : String) (lt : Int → Int → Bool) (h : n
     (hp : provedSWO name = true) (l : List Int) : SWOOn lt l :=
   C19Sort.named_swo name lt h hp l
 
+/-- Lua's own `<` (the default comparison of `table.sort`, and the harness comparator `lt`) is a strict weak
+    order on any list of numbers without NaN — integers and floats compared by exact mathematical value, so
+    `maxinteger − 1 < maxinteger` and `2^53 < 2^53 + 1` — and on any list of strings (bytewise); so the result of
+    sorting such a list must be ordered -/
+theorem lua_order_swo (l : List Val) :
+    ((∀ v ∈ l, ∃ x, v.num? = some x ∧ x.isNaN = false) → SWOOn ltD l) ∧
+    ((∀ v ∈ l, ∃ s, v = .str s) → SWOOn ltD l) :=
+  ⟨C19Sort.lua_lt_swo_numbers l, C19Sort.lua_lt_swo_strings l⟩
+
+example : ltD (.str [49, 48]) (.str [57]) = true ∧ ltD (.str [90]) (.str [97]) = true ∧
+    luaLt (.int 1) (.str [49]) = none := by decide
+
 example : namedLt "mod3" = some (fun a b => decide (a % 3 < b % 3)) ∧ provedSWO "mod3" = true := ⟨rfl, by decide⟩
 example : isSWOOn (fun a b : Int => decide (a ≤ b)) [1, 2] = false := by decide
 example : isSWOOn (fun a b : Int => decide (a % 3 < b % 3)) [1, 4, 2, 3] = true := by decide
